@@ -98,6 +98,13 @@ class CursorProxy:
     def cursor(self):
         return CursorProxy(self._inner.cursor(), self._ctl)
 
+    def __enter__(self):
+        self._inner.__enter__()
+        return self
+
+    def __exit__(self, *a):
+        return self._inner.__exit__(*a)
+
     def __getattr__(self, name):
         return getattr(self._inner, name)
 
